@@ -19,6 +19,22 @@ CHECKS = {
          "Exploration: 20k (thorough 300k) value trees round-tripped through the real printer and reader and compared in value and exactness, composition of the text checked against the shape rules; every 2048th finite binary32 in quick, all 4.28e9 finite binary32 values in thorough (exhaustive for the real clause).",
          "Trusted: the SVal snapshot and its equivalence (numbers by value+exactness). Strings, non-finite reals and symbols needing bars are outside the property.",
          "DESIGN.md §5 C16"),
+ "C01": ("type-directed random program generation (proptest choice sequences) against a reference evaluator (value + tick trace per form, 4 operand orders) + metamorphic equivalent spellings",
+         "Exploration: thousands of random terminating programs over the core forms evaluated form by form on one interpreter and on the reference evaluator; define-sugar flipped and every call routed through apply must give identical outcomes.",
+         "Trusted: refeval.rs (reference evaluator with unit tests from R7RS examples), the generator's typing discipline. Programs whose integers leave i32 are outside the class (counted).",
+         "DESIGN.md §5 C01"),
+ "C05": ("exhaustive nesting family (every derived form in every sub-form position of every derived form) + random type-directed programs with ticking sub-forms against the reference evaluator's direct R7RS semantics",
+         "Exploration: 576 exhaustive nestings plus thousands of random programs; value and order/multiplicity of evaluation (tick trace) per form.",
+         "Trusted: refeval.rs. Known finding: unhygienic templates capture user variables x/temp/atom-key (attributed by a renaming experiment, avoided by construction in 7/8 of the random cases).",
+         "DESIGN.md §5 C05"),
+ "C08": ("fault injection: 8 fault kinds x 5 calling contexts x random embeddings into valid random programs, compared form by form with the reference evaluator (error kind, trace up to the fault, later forms)",
+         "Exploration / fault enumeration: every kind x context skeleton with 48 (thorough 400) random embeddings; the faulting form must yield the error kind, keep the effects completed before it, and later forms must evaluate normally.",
+         "Trusted: refeval.rs error semantics; error kinds are matched through the public ErrorData/LogicError variants.",
+         "DESIGN.md §5 C08"),
+ "C15": ("the C08 fault programs rendered with random multi-line layouts whose token/form extents are recorded by the renderer; oracle: reported location inside the failing form / offending token; stray and missing parentheses for syntax locations",
+         "Exploration: 80 kind x context x (with/without derived forms) skeletons with random layouts (LF/CRLF, comments, indentation, preceding forms); every located error is checked against the extent of the failing form and, for unbound/non-procedure faults, of the offending token.",
+         "Trusted: the renderer's cursor arithmetic (same convention as the lexer: column advances per character, LF resets). Known findings: locations taken from bundled macro templates / base.sld.",
+         "DESIGN.md §5 C15"),
  "C06": ("random datum trees x random layouts (proptest) with round-trip and metamorphic layout oracle; exhaustive short-string differential of the real lexer against an independent reference tokenizer",
          "Exploration: thousands of datum trees over every supported token class rendered with random inter-token layout must evaluate (quoted) to the tree they came from, two layouts alike; exhaustively, every string up to length 5 (thorough 6) over a 17-character alphabet is lexed by the real lexer and by the reference tokenizer: valid strings must give the same tokens with the same end locations, and no accepted text may have a token split before a non-delimiter.",
          "Trusted: reflex.rs (reference tokenizer written from R7RS 7.1.1 for the supported grammar, own unit tests). Known finding: #t/#f/#\\c are not delimiter-checked (pinned tests assert it).",
